@@ -41,6 +41,9 @@ def expand(symbols):
         elif form == 'ext2':
             members += [S.M('n%d' % i, sym[3]), S.M('f%d' % i, sym[1], S.EXT, 'n%d' % i),
                         S.M('g%d' % i, sym[2], S.EXT, 'n%d' % i)]
+        elif form == 'named':
+            # a plain member carrying a name of its own (e.g. the name another struct of the same file gives to a sizer)
+            members.append(S.M(sym[2], sym[1]))
         else:
             members.append(S.M('f%d' % i, sym[1], form, sym[2] if len(sym) > 2 else None))
     return pre + members
